@@ -37,6 +37,13 @@ def run_lock_check(tier, replay=None):
             {"a": "openstats", "h": 1, "p": 1}, {"a": "open", "h": 2, "p": 2}, {"a": "drop", "h": 1, "p": 1}, {"a": "open", "h": 2, "p": 2},
             {"a": "clone", "h": 2, "p": 2}, {"a": "dropcas", "h": 2, "p": 2}, {"a": "open", "h": 3, "p": 1}, {"a": "put", "h": 2, "p": 2},
             {"a": "kill", "h": 0, "p": 2}, {"a": "open", "h": 3, "p": 1}, {"a": "open", "h": 1, "p": 1}]})
+        # opens with settings the store rejects: AlreadyOpened (nothing touched) while the directory is owned - by another
+        # process, by the same process, by a clone only -, the settings error once it is free; then a good open succeeds
+        scen.append({"id": "C11-bad", "np": 2, "nh": 3, "races": 0, "actions": [
+            {"a": "open", "h": 1, "p": 1}, {"a": "put", "h": 1, "p": 1}, {"a": "openbad", "h": 2, "p": 2}, {"a": "openbad", "h": 3, "p": 1},
+            {"a": "clone", "h": 1, "p": 1}, {"a": "dropcas", "h": 1, "p": 1}, {"a": "openbad", "h": 2, "p": 2}, {"a": "drop", "h": 1, "p": 1},
+            {"a": "openbad", "h": 2, "p": 2}, {"a": "open", "h": 2, "p": 2}, {"a": "openbad", "h": 3, "p": 1}, {"a": "kill", "h": 0, "p": 2},
+            {"a": "openbad", "h": 3, "p": 1}, {"a": "open", "h": 3, "p": 1}]})
         # a grandchild spawned while the handle was open must not keep the lock; Async mode releases the lock on drop too
         scen.append({"id": "C11-spawn", "np": 2, "nh": 3, "races": 0, "actions": [
             {"a": "open", "h": 1, "p": 1}, {"a": "spawn", "h": 1, "p": 1}, {"a": "open", "h": 2, "p": 2}, {"a": "drop", "h": 1, "p": 1},
